@@ -313,3 +313,69 @@ pub fn finish(ctx: &Ctx, mut rep: Report, meta: Meta) -> i32 {
         0
     }
 }
+
+// ---------------------------------------------------------------------------------------------
+// Watchdog (C03 / C04): every worker publishes the case it is about to execute; a watchdog
+// thread notices a worker that stays on one case for too long, records the case and ends the
+// process with exit code 3 so that the parent can re-run that single case in isolation.
+
+pub struct Slot {
+    pub since: Instant,
+    pub layer: String,
+    pub input: String,
+}
+
+static SLOTS: Mutex<Vec<std::sync::Arc<Mutex<Slot>>>> = Mutex::new(Vec::new());
+
+thread_local! {
+    static MY_SLOT: std::cell::RefCell<Option<std::sync::Arc<Mutex<Slot>>>> = const { std::cell::RefCell::new(None) };
+}
+
+/// publish the case this thread is about to execute
+pub fn set_case(layer: &str, input: &str) {
+    MY_SLOT.with(|s| {
+        let mut s = s.borrow_mut();
+        if s.is_none() {
+            let slot = std::sync::Arc::new(Mutex::new(Slot { since: Instant::now(), layer: String::new(), input: String::new() }));
+            SLOTS.lock().unwrap().push(slot.clone());
+            *s = Some(slot);
+        }
+        let mut g = s.as_ref().unwrap().lock().unwrap();
+        g.since = Instant::now();
+        g.layer.clear();
+        g.layer.push_str(layer);
+        g.input.clear();
+        g.input.push_str(input);
+    });
+    if let Ok(p) = std::env::var("TMON_PROGRESS") {
+        let _ = std::fs::write(p, format!("{}\n{}", layer, input));
+    }
+}
+
+pub fn clear_case() {
+    MY_SLOT.with(|s| {
+        if let Some(slot) = s.borrow().as_ref() {
+            let mut g = slot.lock().unwrap();
+            g.since = Instant::now();
+            g.input.clear();
+            g.layer.clear();
+        }
+    });
+}
+
+/// start the watchdog; `limit` is the time one case may take before the process gives up on it
+pub fn start_watchdog(candidate_file: String, limit: Duration) {
+    std::thread::spawn(move || loop {
+        std::thread::sleep(Duration::from_millis(500));
+        let slots = SLOTS.lock().unwrap().clone();
+        for s in slots {
+            let g = s.lock().unwrap();
+            if !g.layer.is_empty() && g.since.elapsed() > limit {
+                let body = json!({"layer": g.layer, "input": g.input, "stuck_for_s": g.since.elapsed().as_secs()});
+                let _ = std::fs::write(&candidate_file, serde_json::to_string_pretty(&body).unwrap());
+                println!("WATCHDOG: a worker made no progress for {:?} on a {} input; leaving with exit code 3", limit, g.layer);
+                std::process::exit(3);
+            }
+        }
+    });
+}
